@@ -8,7 +8,7 @@ use std::collections::BTreeMap;
 use std::process::{Command, Stdio};
 use std::time::Instant;
 
-const RULE: &str = "case = one API trace (12-16 operations) drawn from {parse text (plain / fancy spelling), build graph through the node API, edit through nodes_mut, freeze ok, freeze on each error exit (empty graph, dangling key reachable from the root, dangling key in an orphan node after earlier nodes were initialised, unnamed cycle, JSON error), move the schema (Box, Vec that reallocates, Arc, swap), serialize + owned decode, borrowed decode whose result outlives the schema, container Reader over slice / BufReader(1..9) / chunked reader for null, deflate, snappy (+ bzip2, xz, zstandard outside Miri) reading n values, cloning reader.schema() and dropping reader / handle in both orders and using the handle afterwards, Debug formatting, two scoped threads using &Schema / Arc<Schema> concurrently with results compared to the sequential ones, dropping everything in random order}; every trace runs under Miri (UB + data-race interpreter) and under AddressSanitizer; distinct = distinct trace seeds executed, non-trivial = every trace (each performs at least parse/build + drop)";
+const RULE: &str = "case = one API trace (12-16 operations) drawn from {parse text (plain / fancy spelling), build graph through the node API, edit through nodes_mut, freeze ok, freeze on each error exit (empty graph, dangling key reachable from the root, dangling key in an orphan node after earlier nodes were initialised, unnamed cycle, JSON error), move the schema (Box, Vec that reallocates, Arc, swap), serialize + owned decode, borrowed decode whose result outlives the schema, container Reader over slice / BufReader(1..9) / chunked reader for null, deflate, snappy (+ bzip2, xz, zstandard outside Miri) reading n values, cloning reader.schema() and dropping reader / handle in both orders and using the handle afterwards, Debug formatting, two scoped threads using &Schema / Arc<Schema> concurrently with results compared to the sequential ones, three threads making the very FIRST use of a freshly frozen schema concurrently, dropping everything in random order}; every trace runs under Miri (UB + data-race interpreter) and under AddressSanitizer; distinct = distinct trace seeds executed, non-trivial = every trace (each performs at least parse/build + drop)";
 
 struct Stage {
 	name: &'static str,
@@ -335,6 +335,7 @@ pub fn run(thorough: bool, seed: u64) -> i32 {
 			"traces:miri-stacked-borrows",
 			"traces:asan",
 			"miri-stacked-borrows:op:threads",
+			"miri-stacked-borrows:op:threads-first-use",
 			"miri-stacked-borrows:op:freeze-err:dangling-orphan",
 			"miri-stacked-borrows:op:freeze-err:dangling-reachable",
 			"miri-stacked-borrows:op:borrowed-decode-outlives-schema",
